@@ -12,7 +12,7 @@ RULE = ("graph colouring: generate() with argparse namespaces (3-16 variables, 2
         "graphs, hard / soft, extensive / intentional, with and without agents), the generated graph is captured by "
         "wrapping the module's graph builders and the YAML output is parsed back: requested variables and colours, exactly "
         "one constraint per graph edge with that edge's scope, hard = 1000 on equal colours else 0, soft = all entries in "
-        "0..9; Ising: generate_ising with the same PRNG seed in intentional and extensive form (rows/cols 2-5): equal on "
+        "0..9; Ising: generate_ising with the same PRNG seed in intentional and extensive form (rows/cols 2-5, sometimes 10-12 in one direction): equal on "
         "every assignment, var and factor-graph mappings host each computation exactly once; scenario: every event removes "
         "exactly the requested number of distinct agents never removed before; non-trivial = >= 4 variables / >= 3x3 grid "
         "/ >= 2 events; distinct by hash(arguments, seed)")
@@ -119,6 +119,12 @@ def check_ising(rng, seed):
 
     P = []
     rows, cols = rng.randint(2, 5), rng.randint(2, 5)
+    if rng.random() < 0.15:
+        # two-digit coordinates (names such as v_10_0 sort before v_9_0)
+        if rng.random() < 0.5:
+            rows = rng.randint(10, 12)
+        else:
+            cols = rng.randint(10, 12)
     bin_range, un_range = rng.choice([1.6, 0.5, 3]), rng.choice([0.05, 1, 0])
     W = {"generator": "ising", "rows": rows, "cols": cols, "bin_range": bin_range, "un_range": un_range, "seed": seed}
     try:
